@@ -1,11 +1,11 @@
 (* Undoing a whole history (C04): the inverses of the recorded steps, applied in reverse order, restore the
-   token sequence of the starting document - for histories of replace, replace-around, attribute and
-   document-attribute steps - and, for replace-step histories over normal-form documents, a document EQUAL to it. *)
+   token sequence of the starting document - for histories of replace, replace-around, attribute,
+   document-attribute and (non-displacing) node-mark steps - and, for replace-step histories over normal-form documents, a document EQUAL to it. *)
 From Coq Require Import ZArith NArith List Bool Arith Lia String.
 From PM Require Import Model.Data Model.Mark Model.Tree Model.Resolve Model.StepMap Model.Step Spec.Tokens
   Proofs.ReplaceValid Proofs.SliceSides Proofs.TokenBasics Proofs.PathTokens Proofs.ReplaceTokens Proofs.SliceShape
   Proofs.StepFaithful Proofs.SliceTokens Proofs.SliceCut Proofs.TokenLaws Proofs.StepAlgebra Proofs.StepTokens
-  Proofs.AroundTokens Proofs.AroundUndo Proofs.AttrUndo Proofs.TransformProofs
+  Proofs.AroundTokens Proofs.AroundUndo Proofs.AttrUndo Proofs.NodeMarkUndo Proofs.TransformProofs
   Proofs.DataProofs Proofs.TokenInj Proofs.ReplaceCanon Proofs.DocEquality.
 Import ListNotations.
 Local Open Scope nat_scope.
@@ -41,16 +41,24 @@ Definition Undoable (st : step) (doc : node) : Prop :=
     V doc /\ ShapeS sl /\ from <= gf /\ gf <= gt /\ gt <= to /\ ins <= List.length (IT sl)
   | SAttr pos _ _ => V doc /\ forall n, node_at s (S (nsize doc)) doc pos = Ok (Some n) -> NodeNormal s n
   | SDocAttr _ _ => True
+  | SAddNodeMark pos mk =>
+    V doc /\ forall n, node_at s (S (nsize doc)) doc pos = Ok (Some n) ->
+               NodeNormal s n /\ List.length (add_to_set s mk (node_marks n)) = S (List.length (node_marks n))
+  | SRemoveNodeMark pos mk =>
+    V doc /\ forall n, node_at s (S (nsize doc)) doc pos = Ok (Some n) ->
+               NodeNormal s n /\ msnorm (add_to_set s mk (remove_from_set mk (node_marks n))) = msnorm (node_marks n)
   | _ => False
   end.
 
 Lemma undoable_tok_undo st doc : Undoable st doc -> TokUndo st doc.
 Proof.
-  destruct st as [from to sl st|from to gf gt sl ins st| | | | |pos attr value|attr value]; cbn [Undoable]; intros H; try contradiction;
+  destruct st as [from to sl st|from to gf gt sl ins st| | |pos mk|pos mk|pos attr value|attr value]; cbn [Undoable]; intros H; try contradiction;
     intros d' inv e d'' Ha Hi He HeT Hb.
   - destruct H as (Hd & Ho & Hft). exact (replace_step_undo_on s _ _ _ _ _ _ _ _ _ Hd Ho Hft Ha Hi He HeT Hb).
   - destruct H as (Hd & Hs & H1 & H2 & H3 & H4).
     exact (around_step_undo_on s _ _ _ _ _ _ _ _ _ _ _ _ Hd Hs H1 H2 H3 H4 Ha Hi He HeT Hb).
+  - destruct H as (Hd & Hn). exact (proj2 (add_node_mark_undo_on s _ _ _ _ _ _ _ Hd Hn Ha Hi He HeT Hb)).
+  - destruct H as (Hd & Hn). exact (remove_node_mark_undo_on s _ _ _ _ _ _ _ Hd Hn Ha Hi He HeT Hb).
   - destruct H as (Hd & Hn). exact (attr_step_undo_on s _ _ _ _ _ _ _ _ Hd Hn Ha Hi He HeT Hb).
   - cbn [invert_step] in Hi. destruct (lookup_attr (node_attrs doc) attr) as [v0|]; [|discriminate].
     inversion Hi; subst inv. rewrite (doc_attr_step_tokens s _ _ _ _ Hb), HeT. exact (doc_attr_step_tokens s _ _ _ _ Ha).
